@@ -166,8 +166,16 @@ def retained (xs : List (ARow α)) : List (Entry α) := xs.filterMap toEntry
 
 /-! ## Pair key and `groupby_max` -/
 
-/-- `.str.split(",", expand=True)[0]` -/
-def firstMember (g : List Char) : List Char := g.takeWhile (fun c => c != ',')
+/-- does the text start with the separator `", "` the group names are joined with? -/
+def startsSep : List Char → Bool
+  | ',' :: ' ' :: _ => true
+  | _ => false
+
+/-- `.str.split(", ", expand=True)[0]`: the text up to the first `", "` (everything if there is none).
+src: mokapot/picked_protein.py:108-112 -/
+def firstMember : List Char → List Char
+  | [] => []
+  | c :: cs => if startsSep (c :: cs) then [] else c :: firstMember cs
 
 /-- the `"decoy"` column: first member of the group mapped through the
 target→decoy name map, identity for everything else.
